@@ -311,7 +311,7 @@ const char* excClass(const std::exception& e)
    return "other";
 }
 
-struct Member { std::string name; int flags; std::vector<std::string> args; std::vector<std::string> cons; };
+struct Member { std::string name; int flags; std::vector<std::string> args; std::vector<std::string> cons; std::string subkey; };
 
 // "split:<hex>" : appl::make_arg_array on the string, both constructors
 std::string run_split(const std::string& text)
@@ -339,11 +339,19 @@ std::string run_case(const std::vector<std::string>& w)
    std::string prog = "prog", fileContent, envContent, line;
    bool haveFile = false, haveEnv = false, haveLine = false, wantOut = false;
    std::vector<int> defOrder;
+   std::vector<std::pair<std::string, std::string>> xfiles;
    std::vector<std::string> argvWords;
    for (size_t t = 1; t < w.size(); ++t)
    {
       const std::string& tok = w[t];
       if (tok.rfind("H:f=", 0) == 0) members.push_back({ "", std::stoi(tok.substr(4)), {}, {} });
+      else if (tok.rfind("S:", 0) == 0)
+      {
+         // S:<keyspec>:f=<flags> : a sub-group handler, attached to the first handler under <keyspec>; the
+         // following arg: / con: tokens belong to it
+         auto p = vf::split(tok, ':');
+         members.push_back({ "", std::stoi(p.at(2).substr(2)), {}, {}, p.at(1) });
+      }
       else if (tok.rfind("G:", 0) == 0)
       {
          useGroups = true;
@@ -358,6 +366,13 @@ std::string run_case(const std::vector<std::string>& w)
       else if (tok.rfind("argv:", 0) == 0) { for (auto& x : vf::split(tok.substr(5), ',')) argvWords.push_back(vf::unhexs(x)); }
       else if (tok.rfind("line:", 0) == 0) { haveLine = true; line = vf::unhexs(tok.substr(5)); }
       else if (tok == "out:usage") wantOut = true;
+      else if (tok.rfind("xfile:", 0) == 0)
+      {
+         // xfile:<name hex>:<content hex> : a file that an argument-file argument may name (written into the
+         // private directory the harness runs in)
+         auto p = vf::split(tok, ':');
+         xfiles.emplace_back(vf::unhexs(p.at(1)), vf::unhexs(p.at(2)));
+      }
       else if (tok.rfind("order:", 0) == 0) { for (auto& x : vf::split(tok.substr(6), ',')) defOrder.push_back(std::stoi(x)); }
    }
    // private HOME for the argument file; environment variable named after the program
@@ -370,6 +385,13 @@ std::string run_case(const std::vector<std::string>& w)
    const std::string paFile = home + "/.progargs/" + base + ".pa";
    ::unlink(paFile.c_str());
    if (haveFile) { std::ofstream f(paFile, std::ios::binary); f << fileContent; }
+   if (!xfiles.empty())
+   {
+      const std::string afdir = std::string(workdir ? workdir : ".") + "/af";
+      ::mkdir(afdir.c_str(), 0755);
+      if (::chdir(afdir.c_str()) != 0) throw std::runtime_error("chdir " + afdir);
+      for (auto& xf : xfiles) { std::ofstream f(xf.first, std::ios::binary); f << xf.second; }
+   }
    std::string envName = base;
    for (auto& c : envName) c = static_cast<char>(toupper(static_cast<unsigned char>(c)));
    ::unsetenv(envName.c_str());
@@ -398,7 +420,7 @@ std::string run_case(const std::vector<std::string>& w)
          {
             owned.emplace_back(new pa::Handler(out, err, m.flags));
             h = owned.back().get();
-            single = h;
+            if (m.subkey.empty()) single = h;
          }
          hs.push_back(h);
       };
@@ -415,7 +437,9 @@ std::string run_case(const std::vector<std::string>& w)
             if (o.rfind("init=", 0) == 0) initSlot(S, slot, vf::split(o.substr(5), '~'));
             if (o.rfind("desc=", 0) == 0) desc = vf::unhexs(o.substr(5));
          }
-         TypedArgBase* ta = h->addArgument(keyspec, bindSlot(S, slot), desc);
+         // slot "af<n>": the argument that names an argument file (Handler::addArgumentFile), no destination
+         TypedArgBase* ta = slot.rfind("af", 0) == 0 ? h->addArgumentFile(keyspec)
+                                                     : h->addArgument(keyspec, bindSlot(S, slot), desc);
          for (auto& o : opts) applyOption(ta, slot, o);
       };
       auto constrain = [&](pa::Handler* h, Member& m) {
@@ -438,6 +462,11 @@ std::string run_case(const std::vector<std::string>& w)
             create(m);
             for (auto& a : m.args) define(hs.back(), a);
             constrain(hs.back(), m);
+            if (!m.subkey.empty())
+            {
+               if (single == nullptr) throw std::invalid_argument("sub-group without main handler");
+               single->addArgument(m.subkey, *hs.back(), "sub-group " + m.subkey);
+            }
          }
       } else
       {
@@ -495,6 +524,7 @@ std::string run_case(const std::vector<std::string>& w)
    for (auto& s : slots) vals += " " + s + "=" + dumpSlot(S, s);
    if (useGroups) { shared.clear(); pa::Groups::reset(); }
    ::unlink(paFile.c_str());
+   for (auto& xf : xfiles) ::unlink(xf.first.c_str());
    if (outcome == "ok") res += vals;
    if (wantOut) res += " out=" + vf::hex(out.str());
    res += " ## " + excName + (outcome == "ok" ? "" : vals) + " | " + vf::hex(wantOut ? std::string() : out.str())
